@@ -399,8 +399,14 @@ class Server(base_server.BaseServer):
         else:
             delete_it = self.manager.can_disconnect(sid, namespace)
         if delete_it:
+            with self._disconnect_lock:
+                # check and mark in one step, another thread may be
+                # disconnecting this client at the same time
+                if not self.manager.is_connected(sid, namespace):
+                    return
+                eio_sid = self.manager.pre_disconnect(sid,
+                                                      namespace=namespace)
             self.logger.info('Disconnecting %s [%s]', sid, namespace)
-            eio_sid = self.manager.pre_disconnect(sid, namespace=namespace)
             self._send_packet(eio_sid, self.packet_class(
                 packet.DISCONNECT, namespace=namespace))
             try:
@@ -567,9 +573,11 @@ class Server(base_server.BaseServer):
         """Handle a client disconnect."""
         namespace = namespace or '/'
         sid = self.manager.sid_from_eio_sid(eio_sid, namespace)
-        if not self.manager.is_connected(sid, namespace):  # pragma: no cover
-            return
-        self.manager.pre_disconnect(sid, namespace=namespace)
+        with self._disconnect_lock:
+            if not self.manager.is_connected(
+                    sid, namespace):  # pragma: no cover
+                return
+            self.manager.pre_disconnect(sid, namespace=namespace)
         try:
             self._trigger_event('disconnect', namespace, sid,
                                 reason or self.reason.CLIENT_DISCONNECT)
